@@ -104,4 +104,4 @@ impl EventSource for SocketRead<'_> {
 
 #[cfg(kani)]
 #[path = "/verif/harness/may/io_sys_unix_net_socket_read.rs"]
-mod verif_kani;
+pub(crate) mod verif_kani;
